@@ -6,11 +6,39 @@ from ..model import op_place, op_local, place_local, is_bare, trace_back
 T = "tantivy::schema::field_type::Type"
 
 
+def r5(rep, prog):
+    """the values of one field are analysed in the order the document yields them"""
+    import re
+    R = "C07-R5"
+    rep.rule(R, "order of the values of a field: token positions of a multi-valued field continue from value to value (R3), so the values must reach the analyser in document order. Between Document::iter_fields_and_values and the postings writer, SegmentWriter::add_document / index_document (closures included) and what they reach in indexer::segment_writer, core::json_utils and postings::{postings_writer, json_postings_writer} never pass the values through slice::sort_unstable* / select_nth_unstable*: grouping by field needs a stable sort, an unstable one returns the values of one field in arbitrary order")
+    ents = [n for n in prog.bodies if re.search(r"^tantivy::indexer::segment_writer::SegmentWriter::(add_document|index_document)(::\{closure#\d+\})*$", n)]
+    if not rep.check(len(ents) >= 3, R, "anchor SegmentWriter::{add_document, index_document}", "%d bodies" % len(ents), "cannot establish: SegmentWriter::add_document / index_document not found"):
+        return
+    MODS = ("tantivy::indexer::segment_writer::", "tantivy::core::json_utils::", "tantivy::postings::postings_writer::", "tantivy::postings::json_postings_writer::")
+    scope = lambda y: y.lstrip("<").startswith(MODS) or any(m in y for m in MODS)
+    reach = prog.reachable_bodies(ents, scope=scope) | set(ents)
+    BAD = re.compile(r"::(sort_unstable(_by(_key)?)?|select_nth_unstable(_by(_key)?)?)$")
+    n = 0
+    for fid in sorted(reach):
+        b = prog.bodies[fid]
+        for bi, t in b.calls():
+            n += 1
+            f = t.get("res") or t.get("f") or ""
+            f2 = t.get("f") or ""
+            if BAD.search(f) or BAD.search(f2):
+                rep.fail(R, "%s reorders through %s" % (short(fid), short(f2 or f)),
+                         "%s, on the path that hands a document's values to the postings writer, calls `%s`: values of the same field (equal sort keys) come back in arbitrary order, their tokens get positions "
+                         "that are not those of the document (phrase queries and position gaps break for documents with many values)" % (fid, f2 or f), site=site(b, bi))
+    rep.check(len(reach) >= 15, R, "indexing-path bodies examined", "%d bodies, %d calls, no unstable sort" % (len(reach), n),
+              "cannot establish: only %d bodies reachable from add_document" % len(reach))
+
+
 def run(rep, prog, tier):
     rep.rule("C07-R1", "schema::Type::{to_code, from_code} are mutually inverse on every variant and ALL_TYPES lists every variant exactly once")
     rep.rule("C07-R2", "fieldnorm::code::FIELD_NORMS_TABLE has 256 entries, starts at 0 and is strictly increasing (precondition of the binary search in fieldnorm_to_id, and of id_to_fieldnorm being its inverse)")
     rep.not_decided += ["everything about posting-list content, positions, term dictionaries (values)"]
     r3(rep, prog)
+    r5(rep, prog)
     r4(rep, prog)
     tc = get_body(rep, prog, "C07-R1", T + "::to_code")
     fc = get_body(rep, prog, "C07-R1", T + "::from_code")
